@@ -1492,6 +1492,11 @@ def istypealiastype(t: tp.Any) -> compat.TypeIs[compat.TypeAliasType]:
 def unwrap(t: tp.Any) -> tp.Any:
     lt = None
     while lt is not t:
+        # A type variable stands for its bound, its constraints, or anything.
+        if type(t) is tp.TypeVar:
+            lt = t
+            t = normalize_typevar(t)
+            continue
         if should_unwrap(t):
             lt = t
             t = t.__args__[0]
